@@ -9,7 +9,7 @@ from .. import gen, norm, states
 from ..common import lib
 from ..core import require
 from ..spec import kinds, walk_spec
-from .c03 import _qbearing, make_data
+from .c03 import _qbearing, count_before_shape, make_data
 
 ID = "C11"
 BUDGET = {"quick": (4, 400), "thorough": (16, 5000)}
@@ -41,7 +41,8 @@ def strategy(tier):
         crit = gen.critical_values(spec)
         more = [[draw(gen.rows(crit, True, none_cats=False, focus=focus)), draw(gen.weights(True))] for _ in range(draw(st.integers(0, 5)))]
         batch = [[draw(gen.rows(crit, True, none_cats=False, focus=focus)), draw(st.sampled_from((1.0, 0.5, 2.0, 0.0)))] for _ in range(draw(st.integers(0, 5)))]
-        return {"spec": spec, "state": rec, "protocol": draw(st.sampled_from((2, None, pickle.HIGHEST_PROTOCOL))), "more": more, "batch": batch}
+        return {"spec": spec, "state": rec, "protocol": draw(st.sampled_from((2, None, pickle.HIGHEST_PROTOCOL))), "more": more, "batch": batch,
+                "scalar_w": draw(st.sampled_from((None, None, 1.0, 2.0, "omitted")))}
 
     return cases()
 
@@ -83,8 +84,16 @@ def check(case):
         require(not d, "continuation-row", lambda: f"after identical row fills clone differs: {norm.fmt(d)}")
         if _qbearing(spec) and case["batch"]:
             rows = [r for r, _ in case["batch"]]
+            sw = case.get("scalar_w")
+            if sw is not None and count_before_shape(spec):
+                sw = None  # known finding c03-count-scalar-weight: excluded by construction
             for target in (h, clone):
-                target.fill.numpy(make_data("dict", rows), np.array([w for _, w in case["batch"]], dtype=np.float64))
+                if sw is None:
+                    target.fill.numpy(make_data("dict", rows), np.array([w for _, w in case["batch"]], dtype=np.float64))
+                elif sw == "omitted":
+                    target.fill.numpy(make_data("dict", rows))
+                else:
+                    target.fill.numpy(make_data("dict", rows), sw)
             d = norm.diff(doc(h), doc(clone), norm.BITEXACT)
             require(not d, "continuation-numpy", lambda: f"after identical vectorised fills clone differs: {norm.fmt(d)}")
     s = clone + h
